@@ -772,6 +772,24 @@ func (v *Verifier) evalCall(env *Env, e *Expr) *Val {
 	case "rcv":
 		// rcv(L, k): the receiver of the k-th call of the interface method labelled L
 		return &Val{T: types.NewInterfaceType(nil, nil), Term: Select(hs.heapGet("G$rcv$"+args[0].Op, ArrSort(SInt, SInt)), arg(1).Term)}
+	case "gf":
+		// gf(FIELD, obj): ghost field of a struct object
+		o := arg(1)
+		ns := namedStruct(pointee(o.T))
+		if ns == nil {
+			unsupportedf("gf: not a pointer to a struct")
+		}
+		key := heapKeyField(ns, "#"+args[0].Op)
+		t := Select(hs.heapGet(key, ArrSort(SInt, SInt)), o.Term)
+		var rt types.Type = types.Typ[types.UnsafePointer]
+		if tc := v.C.Types[typeName(ns)]; tc != nil {
+			if gt, ok := tc.GhostFields[args[0].Op]; ok {
+				e2 := *env
+				e2.Pkg = v.P.TPkgs[tc.Pkg]
+				rt = v.resolveType(&e2, gt)
+			}
+		}
+		return &Val{T: rt, Term: t}
 	case "spawned":
 		return intVal(hs.ghostInt("spawned$" + args[0].Lit))
 	case "recvs":
